@@ -5,4 +5,4 @@ cd /verif
 run() { id=$1; s=$(date +%s); VERIF_SEED=$seed ./check $id --tier quick > $out/$id.out 2>&1; rc=$?; e=$(date +%s); echo "$id exit=$rc $((e-s))s known=$(grep -c '^KNOWN-FINDING' $out/$id.out)" >> $out/summary.log; }
 export -f run; export seed out
 : > $out/summary.log
-for id in C01 C02 C03 C04 C05 C06 C07 C08 C09 C10 C11 C12 C13 C14 C15 C16 C17 C18 C19 C20; do echo $id; done | xargs -P 4 -I{} bash -c "run {}"
+for id in C01 C02 C03 C04 C05 C06 C07 C08 C09 C10 C11 C12 C13 C14 C15 C16 C17 C18 C19 C20 X01 X02 X03; do echo $id; done | xargs -P 4 -I{} bash -c "run {}"
